@@ -81,7 +81,14 @@ Truncated == {Msg("ok", t, <<Default(k)>>) : t \in {1, 2, 3, 4, 7, 8, 9, 12, 16,
 Prefixed == {Msg("ok", 0, <<p, Default(k)>>) :
                 p \in UNION {Variants1(Default(i), (CHOOSE x \in Kinds : x.d.k = i).a) \cup {Default(i)} : i \in {"INFO_TS", "INFO_DST", "INFO_SRC", "INFO_REPLY", "INFO_REPLY_IP4", "PAD", "UNKNOWN", "VENDOR"}},
                 k \in {"DATA", "HEARTBEAT", "ACKNACK", "GAP"}}
-Messages == Single \cup HeaderVariants \cup Truncated \cup Prefixed
+\* two DATA_FRAG submessages of the same sample whose parameters disagree (size of the sample, fragment size, fragment
+\* numbers, counts): the reassembly works on several buffered fragments
+FragPairs == {Msg("ok", 0, <<Default("DATA_FRAG"), s>>) : s \in Variants2(Default("DATA_FRAG"), (CHOOSE x \in Kinds : x.d.k = "DATA_FRAG").a)}
+             \cup {Msg("ok", 0, <<s, Default("DATA_FRAG")>>) : s \in Variants1(Default("DATA_FRAG"), (CHOOSE x \in Kinds : x.d.k = "DATA_FRAG").a)}
+\* a HEARTBEAT / GAP / DATA after a DATA_FRAG that leaves a partial sample in the buffer
+AfterFrag == {Msg("ok", 0, <<Default("DATA_FRAG"), s>>) :
+                 s \in UNION {Variants1(Default(k), (CHOOSE x \in Kinds : x.d.k = k).a) \cup {Default(k)} : k \in {"HEARTBEAT", "HEARTBEAT_FRAG", "GAP", "DATA"}}}
+Messages == Single \cup HeaderVariants \cup Truncated \cup Prefixed \cup FragPairs \cup AfterFrag
 
 (* what a well behaved peer can observe of the victim *)
 VARIABLES alive, serving, received
